@@ -53,6 +53,7 @@ def m_dcsrch_iterate(dom, args, kw):
     stpmax, stpmin = zreal(o.f["stpmax"]), zreal(o.f["stpmin"])
     if isinstance(task, bytes) and task == b"START":
         nstp = zreal(stp)
+        run.ghost["first_step"] = stp
         run.assume(z3.Or(tag == 0, tag == 3))
         run.assume(z3.Implies(tag == 0, z3.And(nstp >= stpmin, nstp <= stpmax)))
     elif isinstance(task, bytes):
@@ -191,7 +192,28 @@ def make_program(mode, shared):
             if phase == "post":
                 c["stpmax"] = zreal(res)
         it.observers["linesearch.max_allowed_steplength"] = obs_max
-        it.loops[("linesearch.line_search", 1)] = Cut(ls_inv, ls_havoc, shared)
+        class LsCut(Cut):
+            def pre_cut(self, interp, env):
+                # C12 (constants / dataflow of the reference algorithm), checked once the search object exists
+                o = run.ghost.get("dcsrch")
+                PP = ("C12",)
+                tg = "linesearch.line_search::dataflow"
+                if o is None:
+                    run.oblige(tg + "::dcsrch_created", False, PP, backend="structural")
+                    return
+                for nm, arg in (("ftol", args[10]), ("gtol", args[11]), ("xtol", args[12])):
+                    run.oblige(f"{tg}::{nm}_reaches_dcsrch_unmodified", o.f.get(nm) is arg, PP, backend="structural")
+                run.oblige(tg + "::stpmin_is_zero", o.f.get("stpmin") == 0.0, PP, backend="structural")
+                run.oblige(tg + "::stpmax_is_max_allowed_steplength",
+                           c["stpmax"] is not None and zreal(o.f.get("stpmax")) == c["stpmax"], PP)
+                st0 = env.get("steplength_0")
+                first = z3.And(zint(args[6]) == 0, z3.Not(zbool(args[8])))
+                inv_norm = uf("fdiv", R, R, R)(z3.RealVal(1), uf("np.sqrt_s", R, R)(uf("dot", Vec, Vec, R)(dv, dv)))
+                run.oblige(tg + "::first_step_rule",
+                           z3.And(z3.Implies(first, z3.And(zreal(st0) <= c["stpmax"],
+                                                           z3.Or(zreal(st0) == inv_norm, zreal(st0) == c["stpmax"]))),
+                                  z3.Implies(z3.Not(first), zreal(st0) == 1)), PP + ("C11",))
+        it.loops[("linesearch.line_search", 1)] = LsCut(ls_inv, ls_havoc, shared)
         fn = it.lookup("linesearch.line_search")
         cover(run, f"LS[{mode}]::requires_satisfiable")
         args = [x0, Sym(f0), g0, d, lb, ub, Sym(above), Sym(msu), Sym(run.fresh("is_boxed", B)), sf,
